@@ -1,6 +1,7 @@
 import GitSizer.Gen.Strs
 import GitSizer.Proofs.RefFilter
 import GitSizer.Proofs.Config
+import GitSizer.Model.PathResolver
 /-! The hand-written models of `prefixFilter.Filter` and `configKeyMatchesPrefix` ARE the functions
     regenerated from the source by tools/gostr2lean (in which an out-of-range index or slice is a
     panic): the regenerated functions never panic and return exactly what the models return. -/
@@ -94,5 +95,155 @@ theorem configKeyMatchesPrefix_regenerated (key pfx : Bytes) :
               have hne3 : ¬ (some (key[pfx.length]'hlt) = some Config.DOT) := by simp [hd2]
               simp only [this, Bool.false_eq_true, if_false, hne3]
     · simp only [hp, Bool.not_false, if_true, pure]
+
+end GitSizer
+
+namespace GitSizer
+open GitSizer.PathRes
+
+/-- Go's `(colon int, braces bool)` result for the model's `(Option Nat × Bool)` -/
+def scanConv (r : Option Nat × Bool) : Int × Bool :=
+  (match r.1 with | some i => (i : Int) | none => -1, r.2)
+
+theorem indexI_append (pre : Bytes) (c : UInt8) (cs : Bytes) :
+    Go.indexI (pre ++ c :: cs) (pre.length : Int) = .ok c := by
+  rw [indexI_ok]; simp
+
+/-- the regenerated loop of `scanRevision` is the model's recursion over the rest of the name -/
+theorem scanRevision_loop_regenerated : ∀ (suf pre : Bytes) (fuel d : Nat) (b : Bool) (col0 : Int),
+    suf.length + 1 ≤ fuel →
+    Gen.Strs.scanRevision_loop1 (pre ++ suf) fuel col0 b (d : Int) (pre.length : Int) =
+      .ok (scanConv (PathRes.scanRevision d b pre.length suf)) := by
+  intro suf
+  induction suf with
+  | nil =>
+    intro pre fuel d b col0 hf
+    obtain ⟨f, rfl⟩ : ∃ f, fuel = f + 1 := ⟨fuel - 1, by omega⟩
+    simp [Gen.Strs.scanRevision_loop1, PathRes.scanRevision, scanConv, pure]
+  | cons c cs ih =>
+    intro pre fuel d b col0 hf
+    obtain ⟨f, rfl⟩ : ∃ f, fuel = f + 1 := ⟨fuel - 1, by simp at hf; omega⟩
+    have hlt : ((pre.length : Int) < ((pre ++ c :: cs).length : Int)) := by simp; omega
+    have hrec : ∀ (d' : Nat) (b' : Bool),
+        Gen.Strs.scanRevision_loop1 (pre ++ c :: cs) f col0 b' (d' : Int) ((pre.length : Int) + 1) =
+          .ok (scanConv (PathRes.scanRevision d' b' (pre.length + 1) cs)) := by
+      intro d' b'
+      have := ih (pre ++ [c]) f d' b' col0 (by simp at hf ⊢; omega)
+      simpa [List.append_assoc] using this
+    unfold Gen.Strs.scanRevision_loop1 PathRes.scanRevision
+    simp only [hlt, if_true, pure, bind, Res.bind, indexI_append]
+    by_cases h1 : c = lbrace
+    · subst h1
+      have : ((lbrace : UInt8) == (123 : UInt8)) = true := by decide
+      simp only [this, if_true]
+      have hd : (d : Int) + 1 = ((d + 1 : Nat) : Int) := by omega
+      rw [hd]; exact hrec (d + 1) true
+    · have hb1 : (c == (123 : UInt8)) = false := by simp only [beq_eq_false_iff_ne, ne_eq]; exact h1
+      simp only [hb1, Bool.false_eq_true, if_false, h1]
+      by_cases h2 : c = rbrace ∧ d > 0
+      · obtain ⟨hc, hd0⟩ := h2
+        subst hc
+        have : ((rbrace : UInt8) == (125 : UInt8)) = true := by decide
+        have hdd : decide ((d : Int) > 0) = true := by simp; omega
+        simp only [this, if_true, hdd, hd0, and_self]
+        have hd : (d : Int) - 1 = ((d - 1 : Nat) : Int) := by omega
+        rw [hd]; exact hrec (d - 1) b
+      · have hcond : (if (c == (125 : UInt8)) = true then Res.ok (decide ((d : Int) > 0)) else Res.ok false) = Res.ok false := by
+          by_cases hc : c = rbrace
+          · subst hc
+            have : ((rbrace : UInt8) == (125 : UInt8)) = true := by decide
+            have hd0 : ¬ d > 0 := fun h => h2 ⟨rfl, h⟩
+            simp only [this, if_true]
+            congr 1; simp; omega
+          · have : (c == (125 : UInt8)) = false := by simp only [beq_eq_false_iff_ne, ne_eq]; exact hc
+            simp [this]
+        simp only [hcond, Bool.false_eq_true, if_false, h2]
+        by_cases h3 : c = PathRes.colon ∧ d = 0
+        · obtain ⟨hc, hd0⟩ := h3
+          subst hc; subst hd0
+          have : ((PathRes.colon : UInt8) == (58 : UInt8)) = true := by decide
+          simp [this, scanConv]
+        · have hcond3 : (if (c == (58 : UInt8)) = true then Res.ok ((d : Int) == 0) else Res.ok false) = Res.ok false := by
+            by_cases hc : c = PathRes.colon
+            · subst hc
+              have : ((PathRes.colon : UInt8) == (58 : UInt8)) = true := by decide
+              have hd0 : ¬ d = 0 := fun h => h3 ⟨rfl, h⟩
+              simp only [this, if_true]
+              congr 1; simp; omega
+            · have : (c == (58 : UInt8)) = false := by simp only [beq_eq_false_iff_ne, ne_eq]; exact hc
+              simp [this]
+          simp only [hcond3, Bool.false_eq_true, if_false, h3]
+          exact hrec d b
+
+theorem scanRevision_regenerated (name : Bytes) :
+    Gen.Strs.scanRevision name = .ok (scanConv (PathRes.scanRevision 0 false 0 name)) := by
+  unfold Gen.Strs.scanRevision
+  have := scanRevision_loop_regenerated name [] (name.length + 1) 0 false 0 (Nat.le_refl _)
+  simpa using this
+
+end GitSizer
+
+namespace GitSizer
+open GitSizer.PathRes
+
+theorem scanRevision_some_lt : ∀ (s : Bytes) (d : Nat) (b : Bool) (i0 i : Nat) (b' : Bool),
+    PathRes.scanRevision d b i0 s = (some i, b') → i0 ≤ i ∧ i < i0 + s.length := by
+  intro s
+  induction s with
+  | nil => intro d b i0 i b' h; simp [PathRes.scanRevision] at h
+  | cons c cs ih =>
+    intro d b i0 i b' h
+    unfold PathRes.scanRevision at h
+    split at h
+    · have := ih _ _ _ _ _ h; simp; omega
+    · split at h
+      · have := ih _ _ _ _ _ h; simp; omega
+      · split at h
+        · simp only [Prod.mk.injEq, Option.some.injEq] at h; simp; omega
+        · have := ih _ _ _ _ _ h; simp; omega
+
+/-- `rootTreePrefix` as regenerated from sizes/path_resolver.go is the model's -/
+theorem rootTreePrefix_regenerated (hex : Nat → Bytes) (name : Bytes) (oid : Nat) :
+    Gen.Strs.rootTreePrefix name (hex oid) = .ok (PathRes.rootTreePrefix hex name oid) := by
+  unfold Gen.Strs.rootTreePrefix PathRes.rootTreePrefix
+  rw [scanRevision_regenerated]
+  simp only [pure, bind, Res.bind, scanConv]
+  cases hsc : PathRes.scanRevision 0 false 0 name with
+  | mk res braces =>
+    cases braces with
+    | true => simp [PathRes.colon]
+    | false =>
+      cases res with
+      | none => simp [PathRes.colon]
+      | some i =>
+        obtain ⟨_, hlt⟩ := scanRevision_some_lt name 0 false 0 i false hsc
+        simp only [Nat.zero_add] at hlt
+        have hne : ((i : Int) == -1) = false := by
+          simp only [beq_eq_false_iff_ne, ne_eq]; omega
+        simp only [Bool.false_eq_true, if_false, hne]
+        have hlen : ((name.length : Int) - 1) = ((name.length - 1 : Nat) : Int) := by omega
+        rw [hlen, indexI_ok]
+        have hlast : name[name.length - 1]? = name.getLast? := by rw [List.getLast?_eq_getElem?]
+        rw [hlast]
+        by_cases h1 : i = name.length - 1
+        · have : ((i : Int) == ((name.length - 1 : Nat) : Int)) = true := by simp [h1]
+          simp [this, h1]
+        · have : ((i : Int) == ((name.length - 1 : Nat) : Int)) = false := by
+            simp only [beq_eq_false_iff_ne, ne_eq, Int.natCast_inj]; exact h1
+          simp only [this, Bool.false_eq_true, if_false, h1, false_or]
+          cases hgl : name.getLast? with
+          | none =>
+            have := List.getLast?_eq_none_iff.mp hgl
+            rw [this] at hlt; simp at hlt
+          | some c =>
+            simp only
+            by_cases hc : c = PathRes.slash
+            · subst hc
+              have : ((PathRes.slash : UInt8) == (47 : UInt8)) = true := by decide
+              simp [this]
+            · have : (c == (47 : UInt8)) = false := by simp only [beq_eq_false_iff_ne, ne_eq]; exact hc
+              have hne2 : ¬ (some c = some PathRes.slash) := by simp [hc]
+              simp [this, hne2]
+              rfl
 
 end GitSizer
